@@ -252,6 +252,7 @@ func newEngine(ld *Loaded, theory bool) *Engine {
 	} else {
 		e.rtErrStr = types.Typ[types.String]
 	}
+	e.sizes = types.SizesFor("gc", "amd64")
 	e.errorType = types.Universe.Lookup("error").Type()
 	e.registerIntrinsics()
 	for fn := range ssautil.AllFunctions(ld.prog) {
